@@ -348,6 +348,64 @@ pub fn decimals(rng: &mut StdRng, n: usize, out: &mut Vec<Value>) {
   }
 }
 
+/// arbitrary decimal strings (not only printed amounts), in particular around u128::MAX at every scale
+fn decimal_strings(rng: &mut StdRng, n: usize, out: &mut Vec<Value>) {
+  let max_digits: Vec<u32> = digits_of(&u128::MAX.to_string());
+  let mut cases: Vec<(Vec<u32>, Vec<u32>)> = Vec::new();
+  // u128::MAX, MAX+1, MAX-1, MAX+10^j written with k fractional digits
+  for k in 0..=38usize {
+    let cut = max_digits.len() - k;
+    for delta in [0i32, 1, -1, 4, 40] {
+      let mut d = max_digits.clone();
+      // add delta to the last digit with carry (the result may have 40 digits)
+      let mut i = d.len();
+      let mut carry = delta;
+      while carry != 0 && i > 0 {
+        i -= 1;
+        let v = d[i] as i32 + carry;
+        d[i] = v.rem_euclid(10) as u32;
+        carry = v.div_euclid(10);
+      }
+      if carry > 0 {
+        d.insert(0, carry as u32);
+      }
+      let cut2 = d.len() - k;
+      let _ = cut;
+      cases.push((d[..cut2].to_vec(), d[cut2..].to_vec()));
+    }
+  }
+  for _ in 0..n {
+    let il = [0usize, 1, 5, 20, 38, 39, 40][rng.gen_range(0..7)];
+    let fl = [0usize, 1, 2, 18, 38, 39][rng.gen_range(0..6)];
+    let int: Vec<u32> = (0..il).map(|i| if i == 0 { rng.gen_range(1..10) } else { rng.gen_range(0..10) }).collect();
+    let frac: Vec<u32> = (0..fl).map(|_| rng.gen_range(0..10)).collect();
+    if int.is_empty() && frac.is_empty() {
+      continue;
+    }
+    cases.push((int, frac));
+  }
+  let dstr = |d: &[u32]| d.iter().map(|x| char::from_digit(*x, 10).unwrap()).collect::<String>();
+  for (int, frac) in cases {
+    let text = if frac.is_empty() { dstr(&int) } else { format!("{}.{}", dstr(&int), dstr(&frac)) };
+    for div in [0u8, frac.len().min(38) as u8, 38, rng.gen_range(0..=38)] {
+      let t = text.clone();
+      let res = match catch(move || ord::decimal::Decimal::from_str(&t)) {
+        Ok(Ok(dec)) => {
+          let ti = match catch(move || dec.to_integer(div)) {
+            Ok(Ok(v)) => json!({"st": "ok", "n": limbs(v)}),
+            Ok(Err(_)) => json!({"st": "err", "n": []}),
+            Err(_) => json!({"st": "panic", "n": []}),
+          };
+          json!({"st": "ok", "value": limbs(dec.value), "scale": dec.scale, "toint": ti})
+        }
+        Ok(Err(_)) => json!({"st": "err", "value": [], "scale": 0, "toint": {"st": "none", "n": []}}),
+        Err(_) => json!({"st": "panic", "value": [], "scale": 0, "toint": {"st": "none", "n": []}}),
+      };
+      out.push(json!({"f": "decstr", "int": int, "frac": frac, "div": div, "res": res}));
+    }
+  }
+}
+
 pub fn run(family: &str, seed: u64, n: usize, out_path: &str, full: bool, range: Option<(u32, u32)>) -> Result<()> {
   std::panic::set_hook(Box::new(|_| {}));
   let mut rng = StdRng::seed_from_u64(seed);
@@ -357,7 +415,10 @@ pub fn run(family: &str, seed: u64, n: usize, out_path: &str, full: bool, range:
     "sat" => sats(&mut rng, n, range, &mut out),
     "rune" => runes(&mut rng, n, &mut out),
     "unlock" => unlock(&mut rng, n, full, &mut out),
-    "decimal" => decimals(&mut rng, n, &mut out),
+    "decimal" => {
+      decimals(&mut rng, n, &mut out);
+      decimal_strings(&mut rng, n, &mut out);
+    }
     "parsers" => crate::parsers::cases(&mut rng, n, &mut out),
     other => anyhow::bail!("unknown sample family {other}"),
   }
